@@ -377,7 +377,7 @@ func vfC10Run(t *testing.T, cs vfC10Case, out *vfC10Out, isKnown func(string) bo
 			wrapped = true
 			pcw.mu.Lock()
 			orig := pcw.flushFn
-			pcw.flushFn = func(items []queue.Item) error {
+			rec := func(items []queue.Item) error {
 				m := mark()
 				flushMu.Lock()
 				for _, it := range items {
@@ -385,6 +385,12 @@ func vfC10Run(t *testing.T, cs vfC10Case, out *vfC10Out, isKnown func(string) bo
 				}
 				flushMu.Unlock()
 				return orig(items)
+			}
+			pcw.flushFn = rec
+			for _, cw := range pcw.writers { // channel writers created during a connect-time subscribe
+				cw.mu.Lock()
+				cw.flushFn = rec
+				cw.mu.Unlock()
 			}
 			pcw.mu.Unlock()
 		}
